@@ -216,6 +216,13 @@ func negotiateFeatures(ctx context.Context, s *Session, first, ws bool, features
 				// TODO: What should we return here?
 				return mask, rw, stream.PolicyViolation
 			}
+			// A feature negotiated earlier from this list may have changed the
+			// session state so that the selected feature's prerequisites (which held
+			// when it was advertised) no longer do.
+			if s.state&data.feature.Necessary != data.feature.Necessary ||
+				s.state&data.feature.Prohibited != 0 {
+				return mask, rw, stream.PolicyViolation
+			}
 
 			// Add the start element(s) that we popped back so that the negotiate
 			// function can create a token decoder and have tokens match up and decode
